@@ -23,13 +23,13 @@ type RS struct {
 	SeekFail    bool   // Seek returns ErrInjected
 	Yield       func() // called on every Read (C05 interleaving widening)
 
-	Requested int64 // sum of len(p) over Read calls issued before end of input
-	EOFReads  int   // Read calls issued at end of input (they deliver nothing)
-	Delivered int64
-	Reads     int
+	Requested  int64 // sum of len(p) over Read calls issued before end of input
+	EOFReads   int   // Read calls issued at end of input (they deliver nothing)
+	Delivered  int64
+	Reads      int
 	ShortReads int
-	Seeks     int
-	MaxPos    int64
+	Seeks      int
+	MaxPos     int64
 }
 
 func NewRS(b []byte) *RS { return &RS{Data: b, Limit: -1} }
